@@ -399,16 +399,21 @@ Section VrankSegs.
   Proof. apply segs_of_write_last. Qed.
 End VrankSegs.
 
-(* ---- a corner where Model/Driver.v and view.rs differ (documented, see notes/C10.md) --------------------
-   The iterator body of rolling2_apply_idx is modelled over the ZIPPED series, so with window 0 and an empty
-   second series the model run is `Done []` whatever `xs` is; the code asserts on `self` and panics when `xs`
-   is non-empty.  No access is made on either side.                                                     *)
-Lemma resid_iterator_body_empty_second_series {A : Type} {NA : Num A} {T1 : Type} {D1 : IsNone T1 A}
-      {T2 : Type} {D2 : IsNone T2 A} (K : rstat) mp (xs : list T1) :
-  ts_vregx_resid (A := A) (D1 := D1) (D2 := D2) K false 0 mp xs (@nil T2) = Done []
-  /\ steps_ts_vregx_resid (A := A) (D1 := D1) (D2 := D2) K false 0 mp xs (@nil T2) = [].
+(* ---- window 0 on a non-empty first series (X12: Model/Driver.v now follows view.rs here) -----------------
+   Both bodies assert before anything is accessed: the index body `other.len() >= len` and then
+   `window > 0 || len == 0`, the iterator body `window > 0 || self.is_empty()` on SELF - so also when the
+   second series is empty and the zipped series has no element.  No step, no access.                     *)
+Lemma resid_window0_rejected {A : Type} {NA : Num A} {T1 : Type} {D1 : IsNone T1 A}
+      {T2 : Type} {D2 : IsNone T2 A} (K : rstat) body mp (xs : list T1) (ys : list T2) :
+  xs <> [] ->
+  ts_vregx_resid (A := A) (D1 := D1) (D2 := D2) K body 0 mp xs ys = Panicked AssertFail
+  /\ steps_ts_vregx_resid (A := A) (D1 := D1) (D2 := D2) K body 0 mp xs ys = [].
 Proof.
-  unfold ts_vregx_resid, steps_ts_vregx_resid, rolling2_apply_idx_default. cbv zeta.
-  assert (Hc : combine xs (@nil T2) = []) by (destruct xs; reflexivity). rewrite Hc.
-  split; [reflexivity|]. cbn [andb]. apply kernel_steps_w0.
+  intros Hx. split.
+  - unfold ts_vregx_resid. cbv zeta. destruct body.
+    + rewrite rolling2_apply_idx_to_total. destruct (length ys <? length xs); [reflexivity|].
+      replace (bad_window 0 xs) with true by (symmetry; apply bad_window_true_iff; auto). reflexivity.
+    + apply rolling2_apply_idx_default_window0. exact Hx.
+  - unfold steps_ts_vregx_resid. cbv zeta. destruct (body && (length ys <? length xs)); [reflexivity|].
+    apply kernel_steps_w0.
 Qed.
